@@ -43,6 +43,10 @@ Proof. exact ParseProofs.parse_guard_conservative. Qed.
 Theorem C18_fields_tokens : forall s, Forall token (fields s).
 Proof. exact ParseProofs.fields_all_tokens. Qed.
 
+(* trailing blanks after ANY string leave the field list (hence every option value) unchanged *)
+Theorem C18_trailing_blanks : forall s sp, spaces sp -> fields (s ++ sp) = fields s.
+Proof. exact ParseProofs.fields_trailing. Qed.
+
 Print Assumptions C18_parse_render.
 Print Assumptions C18_int_option_value.
 Print Assumptions C18_str_option_value.
@@ -51,3 +55,4 @@ Print Assumptions C18_key_agreement.
 Print Assumptions C18_no_panic.
 Print Assumptions C18_guard_conservative.
 Print Assumptions C18_fields_tokens.
+Print Assumptions C18_trailing_blanks.
